@@ -385,6 +385,9 @@ def work(ctx, tier):
     # a date hint is "the time until that date" at the moment of asking: asking again later must give less
     repeat = [(v, d) for v, d in date_cases if (d - now).total_seconds() > 20][:6]
 
+    # ------------------------------------------------------------------ HTTP-dates while the wall clock moves between two reads
+    stepping_clock_dates(ctx, viol, rng, 400 if tier == "quick" else 8000)
+
     # ------------------------------------------------------------------ end to end
     n2 = (10000 if tier == "quick" else 160000) // ctx.nshards
     for i in range(n2):
@@ -397,6 +400,77 @@ def work(ctx, tier):
     if ctx.shard == 0:
         ctx.sample({"value": "9" * 20 + "...(len 309)", "shape": "dict", "where": "headers", "expect": "no raise; hint None or non-negative float"})
         ctx.sample({"value": date_cases[5][0], "shape": "pairs", "casing": "RETRY-AFTER", "expect": "hint ~ 30 s"})
+
+
+def stepping_clock_dates(ctx, viol, rng, n):
+    """The hint for an HTTP-date is 'the time until that date': however many times the parser looks at the clock, the hint lies between
+    the remaining time at its first and at its last reading and is never negative - also when the date falls between two readings.
+    The parser module's own `datetime` name is replaced by a subclass whose now() advances on every reading."""
+    import redress.extras.http as H
+
+    reads = []
+    state = {"t": None, "step": 0.0}
+
+    class SteppingDatetime(dt.datetime):
+        @classmethod
+        def now(cls, tz=None):
+            cur = state["t"]
+            reads.append(cur)
+            state["t"] = cur + dt.timedelta(seconds=state["step"])
+            return cur if tz is None or cur.tzinfo is not None else cur.replace(tzinfo=tz)
+
+    orig = getattr(H, "datetime", None)
+    how = None
+    if isinstance(orig, type) and issubclass(orig, dt.datetime):
+        H.datetime = SteppingDatetime
+        how = "class"
+    elif getattr(orig, "__name__", None) == "datetime" and hasattr(orig, "datetime"):
+        class _Mod:  # `import datetime` style: a stand-in module object
+            def __getattr__(self, k):
+                return SteppingDatetime if k == "datetime" else getattr(orig, k)
+
+        H.datetime = _Mod()
+        how = "module"
+    if how is None:
+        ctx.cnt["stepping_clock_not_installable"] += 1
+        return
+    try:
+        base = dt.datetime(2031, 5, 6, 7, 8, 9, tzinfo=dt.UTC)
+        for i in range(n):
+            step = rng.choice([0.0, 0.25, 0.5, 1.0, 5.0])
+            off = rng.choice([-5.0, -1.0, -0.5, 0.0, 0.25, 0.5, 0.75, 1.0, 1.5, 2.0, 4.0, 9.0, 30.0])
+            start = base + dt.timedelta(seconds=rng.randint(0, 10**6), microseconds=rng.choice([0, 0, 250000, 500000]))
+            date = (start + dt.timedelta(seconds=off)).replace(microsecond=0)
+            v = format_datetime(date, usegmt=True)
+            state["t"], state["step"] = start, step
+            del reads[:]
+            shape, casing, where = rng.choice(SHAPES), rng.choice(CASINGS), rng.choice(["headers", "response", "attr"])
+            e, found = mk_exc(v, shape, casing, where)
+            case = {"value": v, "clock_start": start.isoformat(), "clock_step_per_reading": step, "shape": shape, "where": where, "tag": "http-date-stepping-clock"}
+            ctx.cnt["classifier_calls"] += 1
+            try:
+                r = http_retry_after_classifier(e)
+            except BaseException as x:  # noqa: BLE001
+                viol("classifier-raised:" + type(x).__name__, f"http_retry_after_classifier raised {type(x).__name__}: {str(x)[:120]} for {case}", case)
+                continue
+            hint, klass = hint_of(r)
+            if found != "yes" and where != "attr":
+                continue
+            if not reads:
+                ctx.cnt["stepping_clock_not_read"] += 1
+                continue
+            ctx.cnt["stepping_clock_dates"] += 1
+            if len(reads) > 1:
+                ctx.cnt["stepping_clock_dates_read_more_than_once"] += 1
+            hi = max(0.0, (date - reads[0]).total_seconds())
+            lo = max(0.0, (date - reads[-1]).total_seconds())
+            if reads[0] < date <= reads[-1] + dt.timedelta(seconds=step):
+                ctx.cnt["stepping_clock_date_between_two_readings"] += 1
+            case["clock_readings"] = [x.isoformat() for x in reads[:4]]
+            if hint is None or hint < 0 or hint != hint or not (lo - 1e-6 <= hint <= hi + 1e-6):
+                viol("date-hint-wrong-under-moving-clock", f"HTTP-date {v!r} with the clock at {reads[0].isoformat()} (+{step}s per reading, {len(reads)} reading(s)) gave hint {hint!r}; expected {lo}..{hi}", case)
+    finally:
+        H.datetime = orig
 
 
 def _end_to_end(ctx, viol, rng, i):
@@ -420,16 +494,29 @@ def _end_to_end(ctx, viol, rng, i):
     n_op = [0]
     shape, casing, where = rng.choice(["dict", "mapsub", "pairs", "getitems"]), rng.choice(CASINGS), rng.choice(["headers", "response", "attr"])
 
+    # table shape: the hint-aware strategy as the default, or registered for RATE_LIMIT only next to a different default; the
+    # failures before the 429 may be of another class (a 503 without Retry-After): the hint belongs to the 429 only
+    table = rng.choice(["default", "default", "rate-limit-only"])
+    first = rng.choice(["429", "429", "503", "503-503"]) if table == "rate-limit-only" else "429"
+    script = {"429": [429, 429], "503": [503, 429], "503-503": [503, 503, 429]}[first]
+    kinds = []
+
     def op_body():
         n_op[0] += 1
         world.t += dur
-        if n_op[0] >= 3:
+        if n_op[0] > len(script):
             return "done"
-        e, _ = mk_exc(str(hint), shape, casing, where)
+        st = script[n_op[0] - 1]
+        kinds.append(st)
+        if st == 503:
+            e = Http429(503)  # no Retry-After at all
+        else:
+            e, _ = mk_exc(str(hint), shape, casing, where)
         raise e
 
-    case = {"hint": hint, "jitter_s": j, "deadline_s": deadline, "attempt_duration": dur, "draw": mode, "async": is_async, "shape": shape, "where": where}
+    case = {"hint": hint, "jitter_s": j, "deadline_s": deadline, "attempt_duration": dur, "draw": mode, "async": is_async, "shape": shape, "where": where, "strategy_table": table, "failures": script}
     strat = retry_after_or(lambda c: 0.125, jitter_s=j)
+    skw = dict(strategy=strat) if table == "default" else dict(strategy=lambda c: 0.015625, strategies={ErrorClass.RATE_LIMIT: strat})
     with env.active(world):
         t0 = world.t
         try:
@@ -441,7 +528,7 @@ def _end_to_end(ctx, viol, rng, i):
                     sleeps.append((s, world.t - t0))
                     world.t += s
 
-                r = AsyncRetry(classifier=http_retry_after_classifier, strategy=strat, deadline_s=deadline, max_attempts=4)
+                r = AsyncRetry(classifier=http_retry_after_classifier, deadline_s=deadline, max_attempts=5, **skw)
                 co = r.call(aop, sleeper=asl)
                 try:
                     co.send(None)
@@ -453,7 +540,7 @@ def _end_to_end(ctx, viol, rng, i):
                     sleeps.append((s, world.t - t0))
                     world.t += s
 
-                Retry(classifier=http_retry_after_classifier, strategy=strat, deadline_s=deadline, max_attempts=4).call(op_body, sleeper=sl)
+                Retry(classifier=http_retry_after_classifier, deadline_s=deadline, max_attempts=5, **skw).call(op_body, sleeper=sl)
         except Http429:
             pass
         except BaseException as x:  # noqa: BLE001
@@ -461,11 +548,20 @@ def _end_to_end(ctx, viol, rng, i):
             return
     ctx.cnt["end_to_end_runs"] += 1
     jj = max(0.0, j)
-    for d, t in sleeps:
+    for k_, (d, t) in enumerate(sleeps):
         ctx.cnt["end_to_end_sleeps"] += 1
         remaining = deadline - t
-        lo, hi = float(hint), float(hint) + jj
         case2 = dict(case, delay=d, elapsed=t, remaining=remaining)
+        if k_ < len(kinds) and kinds[k_] == 503:
+            # no hint on this failure: the other class's own strategy applies
+            ctx.cnt["e2e:other-class-before-the-429"] += 1
+            want = min(0.015625, max(remaining, 0.0))
+            if abs(d - want) > 1e-6:
+                viol("delay-after-hintless-failure-wrong", f"sleeper got {d!r} after a 503 without Retry-After; its own strategy says 0.015625 (remaining {remaining!r})", case2)
+            continue
+        if first != "429":
+            ctx.cnt["e2e:429-after-another-class"] += 1
+        lo, hi = float(hint), float(hint) + jj
         if remaining >= hi + 1e-6:
             ctx.cnt["e2e:within-deadline"] += 1
             if not (lo - 1e-9 <= d <= hi + 1e-9):
@@ -490,19 +586,25 @@ def conclude(ctx):
         "timezone:XST-9": (ctx.cnt["timezone:XST-9"], 1),
         "timezone:XST5": (ctx.cnt["timezone:XST5"], 1),
         "kind:http-date-again-later": (ctx.cnt["kind:http-date-again-later"], 4),
+        "e2e:429-after-another-class": (ctx.cnt["e2e:429-after-another-class"], 100),
+        "e2e:other-class-before-the-429": (ctx.cnt["e2e:other-class-before-the-429"], 100),
     }
+    if not ctx.cnt["stepping_clock_not_installable"]:
+        floors["stepping_clock_dates"] = (ctx.cnt["stepping_clock_dates"], 200)
     return dict(
         rule=(
             "systematic pools (digit strings of length 1..10000 dense around 308/309/4300/4301 x 21 decorations; odd strings; IMF-fixdates around now; "
             "malformed/huge dates; non-string values) x 9 container shapes x 4 key casings x {exc.headers, exc.response.headers, exc.retry_after} + seeded random values; "
-            "one evaluation = one call of the real classifier/parser; distinct = distinct (value, container, casing, location); end-to-end = real Retry/AsyncRetry runs with retry_after_or"
+            "one evaluation = one call of the real classifier/parser; distinct = distinct (value, container, casing, location); end-to-end = real Retry/AsyncRetry runs with retry_after_or as the default strategy or registered for RATE_LIMIT only "
+            "next to another default, 429s preceded by hint-less 503s; HTTP-dates are parsed again with the parser module's `datetime` replaced by a clock that advances on every reading"
         ),
         evaluations=ctx.cnt["classifier_calls"] + ctx.cnt["parser_calls"] + ctx.cnt["end_to_end_runs"],
         nontrivial=len(ctx.sets["nontrivial"]),
         floors=floors,
         assumptions=[
             "three definite input classes get exact expectations (ASCII decimal integers within float range, IMF-fixdates, digit-free garbage); everything else gets safety only (no raise; hint None or a non-negative float)",
-            f"dates are compared with datetime.now() within {DATE_TOL} s (datetime.now is a C slot and cannot be interposed)",
+            f"dates are compared with datetime.now() within {DATE_TOL} s (datetime.now is a C slot and cannot be interposed process-wide); only the stepping-clock slice controls the parser's clock, by replacing the name `datetime` in redress.extras.http "
+            "(when the module binds it in another way the slice is skipped and counted as stepping_clock_not_installable)",
             "header lookups are expected to succeed for Mapping, get+items and pair-list containers in any key casing, and for get-only containers in canonical/lower casing; response objects may be falsy (requests.Response is, for a 429)",
             "HTTP-dates without a zone or with -0000 denote UTC; date cases are repeated under four process time zones (POSIX TZ strings)",
         ],
